@@ -395,7 +395,7 @@ impl Stdfs {
         let m = opts.clone();
         entries = entries.follow(opts.follow).dirs_first().pre_op(move |x| {
             let m1 = sys::mode(x, m.dirs, &m.sym)?;
-            if (!x.is_symlink() || m.follow) && x.is_dir() && !sys::revoking_mode(x.mode(), m1) && x.mode() != m1 {
+            if (!x.is_symlink() || m.follow) && x.is_dir() && m1 != 0 && !sys::revoking_mode(x.mode(), m1) && x.mode() != m1 {
                 fs::set_permissions(x.path(), fs::Permissions::from_mode(m1))?;
             }
             Ok(())
